@@ -146,9 +146,10 @@ class Resolver:
         return tr, selfb
 
     # ------------------------------------------------------------------
-    def resolve_fn(self, ex, callee):
-        key = (callee, tuple(sorted(ex_type_env(ex).items())), ex.cur_fn[-1] if ex.cur_fn and '::' not in callee else None)
+    def resolve_fn(self, ex, callee, allow_blanket=False):
+        key = (callee, tuple(sorted(ex_type_env(ex).items())), ex.cur_fn[-1] if ex.cur_fn and '::' not in callee else None, allow_blanket)
         if key in self.cache: return self.cache[key]
+        self._allow_blanket = allow_blanket
         r = self._resolve_fn(ex, callee)
         self.cache[key] = r
         return r
@@ -247,7 +248,9 @@ class Resolver:
             # blanket impl (`impl<T> Trait for T`) when Self is not a type with its own impl
             if self.crate_types is None: self.macro_self(Dummy)
             bl = self.blanket_impl(tr, method)
-            if bl and (selfb not in self.crate_types or len(selfb) == 1): return self._pick(bl, callee)
+            is_param = bool(re.match(r'^[A-Z]\d?$', selfb or ''))
+            # Self is a type parameter of the caller: first let the executor dispatch on the value's own type; the blanket impl is the last resort
+            if bl and ((selfb not in self.crate_types and not is_param) or (is_param and getattr(self, '_allow_blanket', False))): return self._pick(bl, callee)
             return None
         c2 = _strip_generics(c)
         parts = [p for p in c2.split('::') if p]
